@@ -570,3 +570,108 @@ def oracle_variables(im, rng, n: int) -> T.List[Viol]:
             out.append((key, "a dict literal with the key 'kwargs' is rejected / spliced instead of building that entry",
                         {'program': code, 'answer': ans}))
     return out
+
+
+# ---------------------------------------------------------------- subdir() / subproject() end to end (real `meson setup`)
+
+def meson_setup(files: T.Dict[str, str], base: str) -> T.Tuple[int, T.List[str]]:
+    """write the tree, run the real `meson setup --backend=none`; -> (exit status, Message: lines)"""
+    import os
+    import subprocess
+    import sys
+    import tempfile
+    from . import common
+    d = tempfile.mkdtemp(prefix='p-', dir=base)
+    for rel, text in files.items():
+        p = os.path.join(d, 'src', rel)
+        os.makedirs(os.path.dirname(p), exist_ok=True)
+        with open(p, 'w', encoding='utf-8') as f:
+            f.write(text)
+    env = dict(os.environ)
+    env['PYTHONPATH'] = common.REPO
+    env['PYTHONDONTWRITEBYTECODE'] = '1'
+    p = subprocess.run([sys.executable, os.path.join(common.REPO, 'meson.py'), 'setup', '--backend=none',
+                        os.path.join(d, 'bld'), os.path.join(d, 'src')],
+                       stdout=subprocess.PIPE, stderr=subprocess.STDOUT, text=True, env=env, timeout=300)
+    msgs = []
+    for l in p.stdout.split('\n'):
+        if l.startswith('Message: '):
+            msgs.append(l[len('Message: '):])
+        elif l.startswith('sp| Message: '):          # lines logged while inside subproject 'sp'
+            msgs.append('sp| ' + l[len('sp| Message: '):])
+    common.rmtree(d)
+    return p.returncode, msgs
+
+
+def dump_vars(names: T.Iterable[str]) -> str:
+    return ''.join(f"message('{n}', is_variable('{n}') ? get_variable('{n}') : '<unset>')\n" for n in sorted(names))
+
+
+def oracle_files(im, rng, n: int, base: str) -> T.List[Viol]:
+    """subdir(): the file runs as if written in place, sharing all variables.
+    subproject(): its variables are reachable only through get_variable(); the two scopes do not leak."""
+    out: T.List[Viol] = []
+    for _ in range(n):
+        g = c01_gen.Gen(rng, max_stmts=6)
+        prog = g.program()
+        try:
+            ast = im.parse(prog)
+        except Exception:
+            continue
+        if len(ast.lines) < 2:
+            continue
+        # split at a top-level statement boundary (statement i starts at its lineno)
+        cut1 = rng.randint(1, len(ast.lines) - 1)
+        cut2 = rng.randint(cut1 + 1, len(ast.lines))
+        lines = prog.split('\n')
+        l1 = ast.lines[cut1].lineno - 1
+        l2 = ast.lines[cut2].lineno - 1 if cut2 < len(ast.lines) else len(lines)
+        pre, mid, post = '\n'.join(lines[:l1]) + '\n', '\n'.join(lines[l1:l2]) + '\n', '\n'.join(lines[l2:]) + '\n'
+        names = set(c01_gen.NAMES) | set(c01_gen.LOOPNAMES)
+        tail = dump_vars(names)
+        whole = "project('w')\n" + pre + mid + post + tail
+        split = "project('w')\n" + pre + "subdir('sub')\n" + post + tail
+        if not mid.strip():
+            continue
+        rc1, m1 = meson_setup({'meson.build': whole}, base)
+        rc2, m2 = meson_setup({'meson.build': split, 'sub/meson.build': mid}, base)
+        if (rc1 == 0) != (rc2 == 0) or m1 != m2:
+            out.append((f'subdir:{prog!r}:{cut1}:{cut2}', 'a file run through subdir() does not behave as if written in place',
+                        {'program': prog, 'whole': whole, 'sub': mid, 'rc': [rc1, rc2], 'messages_whole': m1[-6:], 'messages_split': m2[-6:]}))
+        # subproject isolation
+        g2 = c01_gen.Gen(rng, max_stmts=5)
+        q = g2.program()
+        rcq, mq = meson_setup({'meson.build': "project('q')\n" + q + tail}, base)
+        rcp, mp = meson_setup({'meson.build': "project('w')\n" + pre + tail}, base)
+        if rcq != 0 or rcp != 0:
+            continue
+        main = ("project('w')\n" + pre + "sp = subproject('sp')\n" + tail.replace("message('sp',", "message('sp_',") +
+                ''.join(f"message('via', '{v}', sp.get_variable('{v}', '<unset>'))\n" for v in sorted(names)))
+        main = main.replace("message('sp', is_variable('sp') ? get_variable('sp') : '<unset>')\n", '')
+        rc3, m3 = meson_setup({'meson.build': main, 'subprojects/sp/meson.build': "project('sp')\n" + q + tail}, base)
+        if rc3 != 0:
+            out.append((f'subproject:{prog!r}:{q!r}', 'subproject() of a valid file failed', {'main': main, 'sub': q}))
+            continue
+        k = len(names)
+        # messages of the subproject run are those of q standalone (no variable of the parent is visible)
+        if mq and not contains_run(m3, ['sp| ' + m for m in mq]):
+            out.append((f'subproject-scope:{prog!r}:{q!r}', 'the subproject does not evaluate as it does standalone (parent variables leak in?)',
+                        {'main': main, 'sub': q, 'standalone': mq[-6:], 'inside': m3[-12:]}))
+        # after the call the parent's variables are exactly what they were (plus `sp`)
+        after = [m for m in m3 if not m.startswith('via ') and not m.startswith('sp| ')][-k:]
+        before = mp[-k:]
+        if [m for m in after if not m.startswith('sp ')] != [m for m in before if not m.startswith('sp ')]:
+            out.append((f'subproject-leak:{prog!r}:{q!r}', 'subproject() changed or added variables of the calling scope',
+                        {'main': main, 'sub': q, 'before': before, 'after': after}))
+        # and get_variable() reaches exactly the subproject's final variables
+        via = [m for m in m3 if m.startswith('via ')]
+        want = ['via ' + m for m in mq[-k:]]
+        if via != want:
+            out.append((f'subproject-get:{prog!r}:{q!r}', 'sp.get_variable() does not return the subproject\'s variables',
+                        {'main': main, 'sub': q, 'via': via, 'want': want}))
+    return out
+
+
+def contains_run(hay: T.List[str], needle: T.List[str]) -> bool:
+    n = len(needle)
+    return any(hay[i:i + n] == needle for i in range(len(hay) - n + 1))
